@@ -1,1 +1,21 @@
 ALL_MODES = ["gregorian", "360day", "365day", "366day"]
+
+# ---- verification cones (DESIGN 2.10: a property's check discharges the
+# obligations of everything the property depends on, so that a change inside a
+# callee is reported by every property that relies on it)
+T1_CAL = [
+    "data:get_is_leap_year", "data:_get_days_in_year_range",
+    "data:_get_days_in_year", "data:_get_days_in_month", "data:iter_months_days",
+    "data:get_calendar_date_from_ordinal_date",
+    "data:get_ordinal_date_from_calendar_date",
+    "data:_get_calendar_date_week_date_start",
+    "data:_get_ordinal_date_week_date_start", "data:_get_weeks_in_year",
+    "data:get_calendar_date_from_week_date", "data:get_ordinal_date_from_week_date",
+    "data:get_week_date_from_calendar_date", "data:get_week_date_from_ordinal_date",
+]
+TICK = ["data:TimePoint._tick_over_day_of_month", "data:TimePoint._tick_over"]
+ADD_EXACT = [("data:TimePoint.__add__", r"\+(exact|week)$"), "data:Duration.__mul__",
+             ("data:Duration.__add__", r"^(unit|week)-(unit|week)$")]
+REZONE = ["data:TimePoint.to_time_zone", "data:TimePoint.to_utc"]
+CAL_LEMMAS = ["opaque.dby.step", "opaque.dby.range", "cal.key.order", "ord.key.order",
+              "day.split.unique", "hms.split.unique", "wiy.range"]
